@@ -73,11 +73,22 @@ static long idx_of(const void *p)
     return -99;
 }
 static int priv_token, priv_ok = 1;
+/* the sign is the contract; the magnitude is deliberately uninformative (see e_cmp3 in engine.h) */
+static int cmp3(long a, long b)
+{
+    long d = a - b, m = d > 0 ? d : -d; int s = d > 0 ? 1 : -1;
+    if (d == 0) return 0;
+    switch ((unsigned long)(a + b) % 3) {
+    case 0: return s;
+    case 1: return s * (int)(1000 / m + 1);
+    default: return s * (int)(m > 30000 ? 30000 : m);
+    }
+}
 static int cmp(const void *a, const void *b, void *p)
 {
     if (p != (void *)&priv_token) priv_ok = 0;
     ev_add('c', idx_of(a), idx_of(b));
-    return (int)*(const unsigned char *)a - (int)*(const unsigned char *)b;
+    return cmp3(*(const unsigned char *)a, *(const unsigned char *)b);
 }
 static int swap_scratch_ok = 1;
 static void swp(void *a, void *b, void *t, size_t len)
